@@ -474,6 +474,14 @@ def keyframe_classifier_rule(prog, run):
         vi = names.index(cname)
         try:
             t_ref = [ref_flag(ref, [b])[0] for b in range(256)]
+            # the codec module's classifier itself against the specification's unit types (H.264 7.4.1: nal_unit_type 5 = IDR slice;
+            # H.265 table 7-1: 16..21 = BLA_W_LP, BLA_W_RADL, BLA_N_LP, IDR_W_RADL, IDR_N_LP, CRA_NUT, the IRAP types the crate documents)
+            spec_set = [int((b & 0x1F) == 5) if cname == "H264" else int(16 <= ((b >> 1) & 0x3F) <= 21) for b in range(256)]
+            wrong = [b for b in range(256) if t_ref[b] != spec_set[b]]
+            run.check(not wrong, "R7", "keyframe NAL types %s" % cname, "%s == the specification's random-access unit types on all 256 header bytes" % ref,
+                      "%s classifies NAL header byte 0x%02x (unit type %d) as %s, the specification's table says %s" %
+                      ((ref, wrong[0], (wrong[0] & 0x1F) if cname == "H264" else ((wrong[0] >> 1) & 0x3F), "keyframe" if t_ref[wrong[0]] else "not a keyframe", "keyframe" if spec_set[wrong[0]] else "not a keyframe") if wrong else ("", 0, 0, "", "")),
+                      mir.loc_of(u.bodies[ent[0]]))
             nonkey = t_ref.index(0)
             diffs = []
             fns = set()
